@@ -108,11 +108,17 @@ type countingBody struct {
 	r    io.Reader
 	n    int64
 	size int64
+	// eofWithLast: like net/http for a body of known length, the read that delivers the last
+	// byte also reports io.EOF
+	eofWithLast bool
 }
 
 func (c *countingBody) Read(p []byte) (int, error) {
 	n, err := c.r.Read(p)
 	c.n += int64(n)
+	if c.eofWithLast && err == nil && n > 0 && c.n == c.size {
+		err = io.EOF
+	}
 	return n, err
 }
 func (c *countingBody) Close() error { return nil }
@@ -158,7 +164,7 @@ func (g *Registry) resp(req *http.Request, status int, hdr http.Header, body []b
 	if hdr == nil {
 		hdr = http.Header{}
 	}
-	cb := &countingBody{r: bytes.NewReader(body), size: int64(len(body))}
+	cb := &countingBody{r: bytes.NewReader(body), size: int64(len(body)), eofWithLast: length >= 0}
 	g.bodies = append(g.bodies, cb)
 	return &http.Response{
 		StatusCode: status, Status: fmt.Sprintf("%d %s", status, http.StatusText(status)),
